@@ -59,10 +59,18 @@ class C09(Prop):
             l1 = None
             if rng.random() < 0.3 and xt is not None:
                 l1 = float(np.sum(xt))
-            cases.append({"sys": {k: (v.tolist() if isinstance(v, np.ndarray) else v) for k, v in sys.items()}, "b": np.asarray(b).tolist(),
+            extra = []
+            if rng.random() < 0.35:
+                # other in-gamut targets fitted in the same call (our target first), with their own L1 requests, batched
+                for _ in range(rng.randint(1, 2)):
+                    g2 = gs.gen_target_regime(rng, sys, "inside")
+                    if g2 is not None:
+                        extra.append({"b": np.asarray(g2[1]).tolist(), "l1": float(np.sum(g2[2]))})
+            cases.append({"extra": extra, "batch": (rng.choice([1, 2, "full"]) if extra else 1),
+                          "sys": {k: (v.tolist() if isinstance(v, np.ndarray) else v) for k, v in sys.items()}, "b": np.asarray(b).tolist(),
                           "w": [1.0] * m if rng.random() < 0.5 else [rng.randint(2, 8) / 4 for _ in range(m)],
                           "ek": ek, "Eps": Eps, "sigma": sigma, "l1": l1, "l1_eps": 1e-2, "l2_eps": rng.choice([1e-4, 1e-3, 1e-2]), "tk": kind,
-                          "kind": "%s/%s/%s/%s" % (kind, ek, "l1" if l1 else "nol1", "under" if extra else "det")})
+                          "kind": "%s/%s/%s/%s%s" % (kind, ek, "l1" if l1 else "nol1", "under" if sys["n"] > sys["m"] else "det", "/multi" if extra else "")})
         return cases
 
     def run_impl(self, case):
@@ -72,10 +80,15 @@ class C09(Prop):
         else:
             est = gs.make_estimator(sys, w=w)
         kw = dict(HI)
+        Bin = np.asarray(case["b"])[None]
+        extra = case.get("extra") or []
+        if extra:
+            Bin = np.vstack([Bin] + [np.asarray(e["b"])[None] for e in extra])
+            kw["batch_size"] = case["batch"]
         if case["l1"] is not None:
-            kw.update(L1=case["l1"], l1_eps=case["l1_eps"])
+            kw.update(L1=(np.array([case["l1"]] + [e["l1"] for e in extra]) if extra else case["l1"]), l1_eps=case["l1_eps"])
         Eps = None if case["Eps"] is None else np.array(case["Eps"])
-        X, Bp, Bv = est.minimize_variance(np.asarray(case["b"])[None], Epsilon=Eps, l2_eps=case["l2_eps"], **kw)
+        X, Bp, Bv = est.minimize_variance(Bin, Epsilon=Eps, l2_eps=case["l2_eps"], **kw)
         Xo, Bo = est.fit(np.asarray(case["b"])[None], **HI)
         return {"X": np.asarray(X, dtype=float)[0].tolist(), "Bpred": np.asarray(Bp, dtype=float)[0].tolist(), "Bvar": np.asarray(Bv, dtype=float)[0].tolist(),
                 "X_ordinary": np.asarray(Xo, dtype=float)[0].tolist(),
